@@ -518,6 +518,8 @@ func apiCase(s *hlib.Suite, r *hlib.Rng, tier string) {
 	id := s.NextID()
 	desc := map[string]interface{}{"family": "api", "rows": n, "keys": keysDesc(keys, n <= 48)}
 	var out []int
+	var input []int
+	derive := r.Intn(4)
 	var errText string
 	p, v := hlib.Recover(func() {
 		qf := qframe.New(data, newqf.Enums(enums))
@@ -525,6 +527,24 @@ func apiCase(s *hlib.Suite, r *hlib.Rng, tier string) {
 			errText = "New: " + qf.Err.Error()
 			return
 		}
+		// the frame is sorted "however derived": scramble / shrink the row index first
+		switch derive {
+		case 1:
+			qf = qf.Sort(qframe.Order{Column: "rowid", Reverse: true})
+		case 2:
+			if n > 2 {
+				qf = qf.Slice(n/4, n-n/4)
+			}
+		case 3:
+			cnt := 0
+			qf = qf.Filter(qframe.Filter{Column: "rowid", Comparator: func(int) bool { cnt++; return cnt%3 != 0 }})
+			qf = qf.Sort(qframe.Order{Column: "rowid", Reverse: true})
+		}
+		if qf.Err != nil {
+			errText = "derive: " + qf.Err.Error()
+			return
+		}
+		input = qf.MustIntView("rowid").Slice()
 		sorted := qf.Sort(orders...)
 		if sorted.Err != nil {
 			errText = "Sort: " + sorted.Err.Error()
@@ -538,12 +558,13 @@ func apiCase(s *hlib.Suite, r *hlib.Rng, tier string) {
 		// the receiver must be left untouched
 		before := qf.MustIntView("rowid")
 		for i := 0; i < before.Len(); i++ {
-			if before.ItemAt(i) != i {
+			if before.ItemAt(i) != input[i] {
 				errText = "Sort modified the index of its receiver"
 				return
 			}
 		}
 	})
+	s.Count(fmt.Sprintf("api-derivation-%d", derive))
 	if p {
 		s.Fail(id, fmt.Sprintf("QFrame.Sort panicked: %v", v), desc, "")
 	} else if errText != "" {
@@ -556,7 +577,7 @@ func apiCase(s *hlib.Suite, r *hlib.Rng, tier string) {
 	for _, k := range keys {
 		s.Count(fmt.Sprintf("key:%s rev=%v nullLast=%v", kindNames[k.kind], k.reverse, k.nullLast))
 	}
-	s.Add(fmt.Sprintf("SKeys %s %s %s %s", hlib.Bool(exact), keysCoq(keys), natListInt(rowid), natListInt(out)), desc, n >= 2)
+	s.Add(fmt.Sprintf("SKeys %s %s %s %s", hlib.Bool(exact), keysCoq(keys), natListInt(input), natListInt(out)), desc, n >= 2)
 }
 
 // McIlroy, "A Killer Adversary for Quicksort" (1999).
